@@ -408,7 +408,14 @@ def check_pack_and_ctor(ctx):
                 and canon(v.right) == 'self.delimiter_to_be_included':
             ctx.holds(rule, pk, st, 'value followed by the excluded delimiter', apps[0].lineno, clause='e')
         else:
-            ctx.violation(rule, pk, st, 'pack must emit the value followed by delimiter_to_be_included (in that order)', apps[0].lineno, clause='e')
+            # the value cut or padded to a size computed while packing: what was found is named
+            resized = [x for x in ast.walk(v) if (isinstance(x, ast.Call) and isinstance(x.func, ast.Attribute) and x.func.attr in ('ljust', 'rjust', 'center', 'zfill'))
+                       or (isinstance(x, ast.Subscript) and isinstance(x.slice, ast.Slice) and any(isinstance(y, ast.Call) for y in ast.walk(x.slice)))]
+            reads_value = any(canon(x) == canon(ast.parse('getattr(pkt, self.field_name)', mode='eval').body) for x in ast.walk(v))
+            if resized and reads_value:
+                ctx.violation(rule, pk, st, 'pack cuts / pads the value to a size it computes while packing: a size that was evaluated on the packet as parsed so far is evaluated again on the complete packet, so the bytes emitted are not the bytes parsed', apps[0].lineno, clause='e', witness=True)
+            else:
+                ctx.violation(rule, pk, st, 'pack must emit the value followed by delimiter_to_be_included (in that order)', apps[0].lineno, clause='e')
     # constructor: on every path, the delimiter pack re-emits is the marker iff the marker is a
     # bytes string that is left out of the value; otherwise it is empty
     names = [x.arg for x in init.node.args.args]
